@@ -22,11 +22,16 @@ package pedersen
 //@   ensures result == nil ==> n != nil && s != nil && t != nil
 //@   ensures[C15] (result == nil) == pedvalid(n, s, t)
 
+// The commitment equation every zk verifier relies on (C10, C03), at value level: Verify accepts exactly when all
+// operands are present, S and T are units below N, and  s^a * t^b = S * T^e  (mod N); Commit computes s^x * t^y mod N.
 //@ func (Parameters).Verify
 //@   nopanic[C05]
 //@   modifies nothing
 //@   allocates
 //@   requires pedvok(p)
+//@   let NM = natval(p.n.Modulus)
+//@   ensures[C10,C03] result ==> (a != nil && b != nil && e != nil && S != nil && T != nil && natval(S) < NM && coprime(natval(S), NM) && natval(T) < NM && coprime(natval(T), NM))
+//@   ensures[C10,C03] (a != nil && b != nil && e != nil && S != nil && T != nil && natval(S) < NM && coprime(natval(S), NM) && natval(T) < NM && coprime(natval(T), NM)) ==> (result == ((modexp(natval(p.s), natval(a), NM) * modexp(natval(p.t), natval(b), NM)) % NM == (modexp(natval(T), natval(e), NM) * natval(S)) % NM))
 
 //@ func (Parameters).Commit
 //@   nopanic[C05]
@@ -34,6 +39,7 @@ package pedersen
 //@   allocates
 //@   requires pedvok(p) && x != nil && y != nil
 //@   ensures result != nil
+//@   ensures[C10,C03] natval(result) == (modexp(natval(p.s), natval(x), natval(p.n.Modulus)) * modexp(natval(p.t), natval(y), natval(p.n.Modulus))) % natval(p.n.Modulus)
 
 //@ func (*Parameters).WriteTo
 //@   nopanic[C05]
